@@ -511,3 +511,327 @@ theorem scanInv [DecidableEq V] {W : World V} (LL : LowerLaws W) {P : Parser V} 
     exact scanInv_step LL wf o kv ih
 
 end Utv.C05
+
+namespace Utv.C05
+open Spec
+variable {V : Type}
+
+/-! ### what the scan found is what the contract names -/
+
+theorem rank_key_eq {W : World V} {P : Parser V} (wf : WF W P) {kf : Key × PField V} (hf : kf ∈ P.fields) {k : Key}
+    (hacc : accepts W kf.2 k = true) :
+    (if kf.2.allAliases.contains k then k else W.lower k) = normKey W kf.2 k := by
+  rw [accepts_iff] at hacc
+  unfold normKey at hacc ⊢
+  cases hci : kf.2.ci
+  · simp only [hci, Bool.false_eq_true, if_false] at hacc ⊢
+    simp [hacc]
+  · simp only [hci, if_true] at hacc ⊢
+    by_cases hk : k ∈ kf.2.allAliases
+    · simp [hk, wf.ci_lower kf hf hci k hk]
+    · simp [hk]
+
+theorem ranked_eq {W : World V} {P : Parser V} (wf : WF W P) {kf : Key × PField V} (hf : kf ∈ P.fields)
+    (data : List (Key × V)) :
+    ranked W kf.2 data = data.filterMap fun kv =>
+      if normKey W kf.2 kv.1 ∈ kf.2.allAliases then some (idxOf (normKey W kf.2 kv.1) kf.2.allAliases, kv.2) else none := by
+  unfold ranked
+  apply filterMap_congr'
+  intro kv _
+  cases ha : accepts W kf.2 kv.1
+  · have : ¬ normKey W kf.2 kv.1 ∈ kf.2.allAliases := by
+      intro h; rw [← accepts_iff, ha] at h; cases h
+    simp [this]
+  · have h1 := (accepts_iff W kf.2 kv.1).1 ha
+    simp only [if_true, h1]
+    unfold rankOf
+    rw [rank_key_eq wf hf ha]
+
+theorem best_eq_head {W : World V} {P : Parser V} (wf : WF W P) {kf : Key × PField V} (hf : kf ∈ P.fields)
+    (data : List (Key × V)) : (best W kf.2 data).map (·.2) = (candidates W kf.2 data).head? := by
+  unfold best
+  rw [ranked_eq wf hf]
+  exact pickMin_ranked (normKey W kf.2) kf.2.allAliases data
+
+theorem mem_valsOf_iff (W : World V) (f : PField V) (data : List (Key × V)) (x : V) :
+    x ∈ valsOf W f data ↔ x ∈ candidates W f data := by
+  unfold valsOf candidates
+  simp only [List.mem_filterMap, List.mem_flatMap]
+  constructor
+  · rintro ⟨kv, hkv, he⟩
+    cases ha : accepts W f kv.1
+    · simp [ha] at he
+    · simp only [ha, if_true, Option.some.injEq] at he
+      exact ⟨normKey W f kv.1, (accepts_iff W f kv.1).1 ha, kv, hkv, by simp [he]⟩
+  · rintro ⟨a, ha, kv, hkv, he⟩
+    by_cases hn : normKey W f kv.1 = a
+    · simp only [hn, if_true, Option.some.injEq] at he
+      refine ⟨kv, hkv, ?_⟩
+      have : accepts W f kv.1 = true := by rw [accepts_iff, hn]; exact ha
+      simp [this, he]
+    · simp [hn] at he
+
+/-! ### the provided-field loop and the absent-field loop -/
+
+theorem dfProvide_fold [DecidableEq V] {W : World V} (LL : LowerLaws W) {P : Parser V} (wf : WF W P) (o : Opts V)
+    {data : List (Key × V)} {s : DfScan V} (inv : ScanInv W P o data s)
+    (l : List (Key × Input V)) (hl : ∀ ni ∈ l, ni ∈ s.inputs) (st : St V) :
+    dfProvideAll {} W o s.conflicts l st = foldOut (outOf W o data) (l.map (·.2.field)) st
+    ∧ ∀ ni ∈ l, ∃ kf ∈ P.fields, kf.2 = ni.2.field ∧ kf.2.name = ni.1 ∧ (outOf W o data kf.2).provided = true := by
+  induction l generalizing st with
+  | nil => exact ⟨rfl, by simp⟩
+  | cons ni l ih =>
+    have hni := hl ni (by simp)
+    obtain ⟨kf, hf, hname⟩ := inv.keys ni.1 (List.mem_map_of_mem (f := (·.1)) hni)
+    have hd : dget ni.1 s.inputs = some ni.2 := dget_of_mem inv.nodup hni
+    have hinp := inv.inp kf hf
+    rw [hname, hd] at hinp
+    cases hb : best W kf.2 data with
+    | none => rw [hb] at hinp; cases hinp
+    | some w =>
+      rw [hb] at hinp
+      simp only [Option.map_some, Option.some.injEq] at hinp
+      have hhead : (candidates W kf.2 data).head? = some w.2 := by rw [← best_eq_head wf hf, hb]; rfl
+      obtain ⟨rest, hc⟩ : ∃ rest, candidates W kf.2 data = w.2 :: rest := by
+        cases hcd : candidates W kf.2 data with
+        | nil => rw [hcd] at hhead; cases hhead
+        | cons c rest => rw [hcd] at hhead; simp at hhead; exact ⟨rest, by rw [hhead]⟩
+      have hflag : (s.conflicts.contains ni.1 && !o.ignoreAliasConflicts)
+          = (!o.ignoreAliasConflicts && rest.any (· ≠ w.2)) := by
+        rw [Bool.and_comm]
+        congr 1
+        rw [Bool.eq_iff_iff, List.contains_iff_mem, ← hname, inv.conf kf hf, hb, List.any_eq_true]
+        simp only [Option.map_some, ne_eq, Option.some.injEq, decide_eq_true_eq]
+        constructor
+        · rintro ⟨x, hx, hne⟩
+          rw [mem_valsOf_iff, hc] at hx
+          rcases List.mem_cons.mp hx with e | e
+          · exact absurd e hne
+          · exact ⟨x, e, hne⟩
+        · rintro ⟨x, hx, hne⟩
+          exact ⟨x, by rw [mem_valsOf_iff, hc]; exact List.mem_cons_of_mem _ hx, hne⟩
+      have hstep : provide {} W o ni.2.field ni.2.value (s.conflicts.contains ni.1 && !o.ignoreAliasConflicts) st
+          = applyOut kf.2 (outOf W o data kf.2) st := by
+        rw [hflag, hinp]
+        exact provide_eq W o kf.2 data st w.2 rest hc
+      have hprov : (outOf W o data kf.2).provided = true := by
+        unfold outOf; rw [provided_eq, hc]; rfl
+      obtain ⟨ih1, ih2⟩ := ih (fun x hx => hl x (List.mem_cons_of_mem _ hx)) (applyOut kf.2 (outOf W o data kf.2) st)
+      constructor
+      · unfold dfProvideAll at ih1 ⊢
+        rw [List.foldl_cons, hstep, ih1]
+        simp only [List.map_cons, foldOut_cons]
+        rw [hinp]
+      · intro x hx
+        rcases List.mem_cons.mp hx with e | e
+        · subst e; exact ⟨kf, hf, by rw [hinp], hname, hprov⟩
+        · exact ih2 x e
+
+theorem dhas_inputs_iff [DecidableEq V] {W : World V} {P : Parser V} (wf : WF W P) (o : Opts V)
+    {data : List (Key × V)} {s : DfScan V} (inv : ScanInv W P o data s) {kf : Key × PField V} (hf : kf ∈ P.fields) :
+    dhas kf.2.name s.inputs = (outOf W o data kf.2).provided := by
+  unfold dhas outOf
+  rw [inv.inp kf hf, provided_eq]
+  have := best_eq_head wf hf data
+  cases hb : best W kf.2 data with
+  | none =>
+    rw [hb] at this
+    have : candidates W kf.2 data = [] := eq_nil_of_head?_none this.symm
+    simp [this]
+  | some w =>
+    rw [hb] at this
+    cases hc : candidates W kf.2 data with
+    | nil => rw [hc] at this; cases this
+    | cons c rest => simp
+
+theorem dfAbsent_fold [DecidableEq V] {W : World V} {P : Parser V} (wf : WF W P) (o : Opts V)
+    {data : List (Key × V)} {s : DfScan V} (inv : ScanInv W P o data s)
+    (l : List (Key × PField V)) (hl : ∀ kf ∈ l, kf ∈ P.fields) (st : St V) :
+    l.foldl (fun st kf => if dhas kf.2.name s.inputs then st else absent {} o kf.2 st) st
+      = foldOut (outOf W o data) ((l.filter fun kf => !(outOf W o data kf.2).provided).map (·.2)) st := by
+  induction l generalizing st with
+  | nil => rfl
+  | cons kf l ih =>
+    have hf := hl kf (by simp)
+    rw [List.foldl_cons, dhas_inputs_iff wf o inv hf, List.filter_cons]
+    cases hp : (outOf W o data kf.2).provided
+    · simp only [Bool.false_eq_true, if_false, Bool.not_false, if_true, List.map_cons, foldOut_cons]
+      have hc : candidates W kf.2 data = [] := by
+        unfold outOf at hp; rw [provided_eq] at hp
+        cases h : candidates W kf.2 data with
+        | nil => rfl
+        | cons c r => rw [h] at hp; cases hp
+      rw [absent_eq W o kf.2 data st hc]
+      exact ih (fun x hx => hl x (List.mem_cons_of_mem _ hx)) _
+    · simp only [if_true, Bool.not_true, Bool.false_eq_true, if_false]
+      exact ih (fun x hx => hl x (List.mem_cons_of_mem _ hx)) _
+
+end Utv.C05
+
+namespace Utv.C05
+open Spec
+variable {V : Type}
+
+/-! ### data_first_parse against the reference run -/
+
+theorem depsCheck_fields (P : Parser V) (st : St V) :
+    (depsCheck P st).result = st.result ∧
+    ∀ e, e ∈ (depsCheck P st).errs ↔ e ∈ st.errs ∨ ((lackOf P st).isEmpty = false ∧ e = .depsAbsence (lackOf P st)) := by
+  rw [depsCheck_eq]
+  cases h : (lackOf P st).isEmpty
+  · simp
+  · simp
+
+theorem lackOf_of_eq (P : Parser V) {a b : St V} (h1 : ∀ k, dget k a.result = dget k b.result)
+    (h2 : ∀ d, d ∈ a.deps ↔ d ∈ b.deps) (h3 : ∀ n, n ∈ a.unprov ↔ n ∈ b.unprov) : lackOf P a = lackOf P b := by
+  have : StEq a { b with errs := a.errs } := ⟨h1, h2, h3, fun _ => Iff.rfl⟩
+  rw [lackOf_congr P this]
+  rfl
+
+theorem nodup_map_filter_of {α : Type} (f : α → Key) (p : α → Bool) {l : List α} (h : (l.map f).Nodup) :
+    ((l.filter p).map f).Nodup := by
+  induction l with
+  | nil => simp
+  | cons x xs ih =>
+    simp only [List.map_cons, List.nodup_cons] at h
+    rw [List.filter_cons]
+    split
+    · simp only [List.map_cons, List.nodup_cons]
+      refine ⟨?_, ih h.2⟩
+      intro hc
+      apply h.1
+      rw [List.mem_map] at hc ⊢
+      obtain ⟨y, hy, he⟩ := hc
+      exact ⟨y, (List.mem_filter.mp hy).1, he⟩
+    · exact ih h.2
+
+/-- **data_first_parse and the reference run agree as finite maps / error sets.** -/
+theorem dataFirst_equiv_ref [DecidableEq V] {W : World V} (LL : LowerLaws W) {P : Parser V} (wf : WF W P)
+    (o : Opts V) (data : List (Key × V)) :
+    (∀ k, dget k (dataFirst {} W P o data).result = dget k (refRun W P o data).result)
+    ∧ (∀ e, e ∈ (dataFirst {} W P o data).errs ↔ e ∈ (refRun W P o data).errs) := by
+  have inv := scanInv LL wf o data
+  generalize hs : data.foldl (dfScanStep W P o) {} = s at inv
+  obtain ⟨hprov, hprovmem⟩ := dfProvide_fold LL wf o inv s.inputs (fun _ h => h) ({ errs := s.errs } : St V)
+  have habs := dfAbsent_fold wf o inv P.fields (fun _ h => h)
+    (foldOut (outOf W o data) (s.inputs.map (·.2.field)) ({ errs := s.errs } : St V))
+  -- the state before the dependency check
+  let provL := s.inputs.map (·.2.field)
+  let absL := (P.fields.filter fun kf => !(outOf W o data kf.2).provided).map (·.2)
+  have hst2 : dfAbsentAll {} P o s.inputs (dfProvideAll {} W o s.conflicts s.inputs ({ errs := s.errs } : St V))
+      = foldOut (outOf W o data) (provL ++ absL) ({ errs := s.errs } : St V) := by
+    rw [foldOut_append]; unfold dfAbsentAll; rw [hprov, habs]
+  -- the fields met by the two loops are exactly the declared ones, once each
+  have hmem : ∀ g, g ∈ provL ++ absL ↔ g ∈ P.fields.map (·.2) := by
+    intro g
+    simp only [List.mem_append, List.mem_map, List.mem_filter, provL, absL]
+    constructor
+    · rintro (⟨ni, hni, rfl⟩ | ⟨kf, ⟨hf, _⟩, rfl⟩)
+      · obtain ⟨kf, hf, he, _, _⟩ := hprovmem ni hni
+        exact ⟨kf, hf, he⟩
+      · exact ⟨kf, hf, rfl⟩
+    · rintro ⟨kf, hf, rfl⟩
+      cases hp : (outOf W o data kf.2).provided
+      · exact Or.inr ⟨kf, ⟨hf, by simp [hp]⟩, rfl⟩
+      · left
+        have hd : dhas kf.2.name s.inputs = true := by rw [dhas_inputs_iff wf o inv hf, hp]
+        unfold dhas at hd
+        cases hg : dget kf.2.name s.inputs with
+        | none => rw [hg] at hd; cases hd
+        | some inp =>
+          have hm := dget_mem hg
+          refine ⟨(kf.2.name, inp), hm, ?_⟩
+          obtain ⟨kg, hgf, he, hn, _⟩ := hprovmem _ hm
+          have : kg = kf := wf.name_inj hgf hf hn
+          subst this; exact he.symm
+  have hnd : ((provL ++ absL).map (·.name)).Nodup := by
+    rw [List.map_append, List.nodup_append]
+    refine ⟨?_, ?_, ?_⟩
+    · -- names of the provided fields are the keys of `inputs`
+      have : provL.map (·.name) = s.inputs.map (·.1) := by
+        simp only [provL, List.map_map]
+        apply List.map_congr_left
+        intro ni hni
+        obtain ⟨kf, _, he, hn, _⟩ := hprovmem ni hni
+        simp only [Function.comp]; rw [← he, hn]
+      rw [this]; exact inv.nodup
+    · simp only [absL, List.map_map]
+      exact nodup_map_filter_of (fun kf : Key × PField V => kf.2.name) _ wf.names_nodup
+    · intro a ha b hb e
+      simp only [provL, absL, List.map_map, List.mem_map, List.mem_filter, Function.comp] at ha hb
+      obtain ⟨ni, hni, rfl⟩ := ha
+      obtain ⟨kf, ⟨hf, hnp⟩, rfl⟩ := hb
+      obtain ⟨kg, hgf, he, _, hp⟩ := hprovmem ni hni
+      rw [← he] at e
+      have : kg = kf := wf.name_inj hgf hf e
+      subst this
+      rw [hp] at hnp; cases hnp
+  -- compare with the fold in declaration order
+  have hndF : ((P.fields.map (·.2)).map (·.name)).Nodup := by
+    rw [List.map_map]; exact wf.names_nodup
+  let st2 := foldOut (outOf W o data) (provL ++ absL) ({ errs := s.errs } : St V)
+  let stF := foldOut (outOf W o data) (P.fields.map (·.2)) ({} : St V)
+  have hres : ∀ k, dget k st2.result = dget k stF.result := by
+    intro k
+    by_cases hk : k ∈ (P.fields.map (·.2)).map (·.name)
+    · rw [List.mem_map] at hk
+      obtain ⟨g, hg, rfl⟩ := hk
+      rw [foldOut_result_mem _ _ _ hnd ((hmem g).2 hg), foldOut_result_mem _ _ _ hndF hg]
+    · have hk' : k ∉ (provL ++ absL).map (·.name) := by
+        intro hc; apply hk
+        rw [List.mem_map] at hc ⊢
+        obtain ⟨g, hg, he⟩ := hc
+        exact ⟨g, (hmem g).1 hg, he⟩
+      rw [foldOut_result_other _ _ _ _ hk', foldOut_result_other _ _ _ _ hk]
+  have hdeps : ∀ d, d ∈ st2.deps ↔ d ∈ stF.deps := by
+    intro d
+    rw [foldOut_deps, foldOut_deps]
+    simp only [List.not_mem_nil, false_or]
+    constructor
+    · rintro ⟨g, hg, h⟩; exact ⟨g, (hmem g).1 hg, h⟩
+    · rintro ⟨g, hg, h⟩; exact ⟨g, (hmem g).2 hg, h⟩
+  have hunp : ∀ n, n ∈ st2.unprov ↔ n ∈ stF.unprov := by
+    intro n
+    rw [foldOut_unprov, foldOut_unprov]
+    simp only [List.not_mem_nil, false_or]
+    constructor
+    · rintro ⟨g, hg, h⟩; exact ⟨g, (hmem g).1 hg, h⟩
+    · rintro ⟨g, hg, h⟩; exact ⟨g, (hmem g).2 hg, h⟩
+  have herr : ∀ e, e ∈ st2.errs ↔ e ∈ s.errs ∨ e ∈ stF.errs := by
+    intro e
+    rw [foldOut_errs, foldOut_errs]
+    simp only [List.not_mem_nil, false_or]
+    constructor
+    · rintro (h | ⟨g, hg, h⟩)
+      · exact Or.inl h
+      · exact Or.inr ⟨g, (hmem g).1 hg, h⟩
+    · rintro (h | ⟨g, hg, h⟩)
+      · exact Or.inl h
+      · exact Or.inr ⟨g, (hmem g).2 hg, h⟩
+  have hlack : lackOf P st2 = lackOf P stF := lackOf_of_eq P hres hdeps hunp
+  have hadd : (s.addition, s.errs) = addAll W P o (extras W P data) := inv.add
+  have hadd1 : s.addition = (addAll W P o (extras W P data)).1 := by rw [← hadd]
+  have hadd2 : s.errs = (addAll W P o (extras W P data)).2 := by rw [← hadd]
+  obtain ⟨hd2r, hd2e⟩ := depsCheck_fields P st2
+  obtain ⟨hdFr, hdFe⟩ := depsCheck_fields P stF
+  unfold dataFirst refRun
+  simp only [hs]
+  rw [hst2]
+  constructor
+  · intro k
+    show dget k (dupdate (depsCheck P st2).result s.addition) = dget k (dupdate (depsCheck P stF).result _)
+    rw [dget_dupdate, dget_dupdate, hd2r, hdFr, hres k, hadd1]
+  · intro e
+    show e ∈ (depsCheck P st2).errs ↔ e ∈ (depsCheck P stF).errs ++ _
+    rw [List.mem_append, hd2e, hdFe, herr, hlack, ← hadd2]
+    constructor
+    · rintro ((h | h) | h)
+      · exact Or.inr h
+      · exact Or.inl (Or.inl h)
+      · exact Or.inl (Or.inr h)
+    · rintro ((h | h) | h)
+      · exact Or.inl (Or.inr h)
+      · exact Or.inr h
+      · exact Or.inl (Or.inl h)
+
+end Utv.C05
